@@ -1342,6 +1342,11 @@ sc_options_save (int package_id, int err_priority,
         this_prefix = item->opt_name;
       }
     }
+    else {
+      /* an option without long name is looked up in the default section */
+      this_prefix = default_prefix;
+      this_n = strlen (default_prefix);
+    }
 
     if (this_prefix != NULL &&
         (last_prefix == NULL || this_n != last_n ||
